@@ -48,6 +48,7 @@ var c03Lists = []c03list{
 	{name: "avg-count", keys: true, items: []Item{{E: Agg{"AVG", "h"}, As: "av"}, {E: Agg{"COUNT", ""}, As: "c"}, {E: Agg{"COUNT", "h"}, As: "ch"}}},
 	{name: "star", keys: true, star: true},
 	{name: "aggregates-only", keys: false, items: []Item{{E: Agg{"COUNT", ""}, As: "c"}, {E: Agg{"SUM", "v"}, As: "s"}}},
+	{name: "same-function-nested-columns", keys: true, items: []Item{{E: Agg{"SUM", "o.v"}, As: "s"}, {E: Agg{"SUM", "p.v"}, As: "s2"}, {E: Agg{"MAX", "p.v"}, As: "mx2"}, {E: Agg{"MAX", "o.v"}, As: "mx"}}},
 	{name: "same-call-twice", keys: true, items: []Item{{E: Agg{"SUM", "v"}, As: "s"}, {E: Agg{"COUNT", ""}, As: "c"}, {E: Agg{"SUM", "v"}, As: "s3"}, {E: Agg{"SUM", "h"}, As: "sh"}}},
 }
 
@@ -112,6 +113,9 @@ func (p *c03) Init(tier string) {
 		for i, k := range cur {
 			row := gq.CloneMap(arch[k])
 			row["id"] = float64(i)
+			// the same values once more under two objects whose inner key has the same name
+			row["o"] = map[string]any{"v": row["v"]}
+			row["p"] = map[string]any{"v": row["w"]}
 			rows = append(rows, row)
 		}
 		p.tables = append(p.tables, rows)
@@ -385,7 +389,7 @@ func (p *c03) runOrder(r *core.CaseResult, c *c03case, sql string) {
 
 func (p *c03) Meta() core.Meta {
 	return core.Meta{
-		Rule: "one case per query = (grouping set in {none, g, h, (g,h), (h,g)}) x (select list: keys+COUNT(*) | SUM on two columns | MIN/MAX on two columns | AVG,COUNT(*),COUNT(col) | keys+* | aggregates only | same call twice) x (5 WHEREs incl. always-false) x (4 HAVINGs), each run on every table of <= 3 (thorough 4) rows over 6 archetypes with NULL group keys and NULL aggregate inputs, compared as a sequence with the reference group-by; plus map-order cases: the grouped queries on a table subset under every Go-map iteration order within deviation bound 1 (thorough 2). non-trivial = reference has >= 2 groups (or a whole-table aggregate over >= 2 rows); for map-order cases: more than one iteration order was executed",
+		Rule: "one case per query = (grouping set in {none, g, h, (g,h), (h,g)}) x (select list: keys+COUNT(*) | SUM on two columns | the same functions on two nested columns with the same final name | MIN/MAX on two columns | AVG,COUNT(*),COUNT(col) | keys+* | aggregates only | same call twice) x (5 WHEREs incl. always-false) x (4 HAVINGs), each run on every table of <= 3 (thorough 4) rows over 6 archetypes with NULL group keys and NULL aggregate inputs, compared as a sequence with the reference group-by; plus map-order cases: the grouped queries on a table subset under every Go-map iteration order within deviation bound 1 (thorough 2). non-trivial = reference has >= 2 groups (or a whole-table aggregate over >= 2 rows); for map-order cases: more than one iteration order was executed",
 		Assumptions: []string{
 			"reference: SUM/MIN/MAX ignore NULL members and are NULL without non-NULL members; AVG and COUNT(col) only on NULL-free columns (abstains otherwise); HAVING only over NULL-free aggregate values",
 			"aggregate select items are always aliased (the property fixes no column name for COUNT(*))",
